@@ -84,6 +84,22 @@ def canon_cond(test, defs, negate=False):
     return ('not ' if negate else '') + norm(t)
 
 
+def canon_conds(test, defs, negate=False):
+    """list of canonical conditions equivalent to the (possibly negated) test: a conjunction is split into its parts,
+    a negated disjunction into the negated parts (De Morgan); anything else is one condition"""
+    t = test
+    while isinstance(t, ast.UnaryOp) and isinstance(t.op, ast.Not):
+        t = t.operand
+        negate = not negate
+    if isinstance(t, ast.BoolOp):
+        if (isinstance(t.op, ast.And) and not negate) or (isinstance(t.op, ast.Or) and negate):
+            out = []
+            for v in t.values:
+                out += canon_conds(v, defs, negate)
+            return out
+    return [canon_cond(t, defs, negate)]
+
+
 def dominating_conditions(fnode, target, defs):
     """Canonical conditions that hold whenever the node `target` executes: tests of enclosing
     `if`s and the negation of every earlier `if c: continue/return/break/raise` in enclosing blocks."""
@@ -105,14 +121,14 @@ def dominating_conditions(fnode, target, defs):
                     if n is target:
                         result = conds
                         return
-                walk(s.body, conds + [canon_cond(s.test, defs)])
+                walk(s.body, conds + canon_conds(s.test, defs))
                 if result is not None:
                     return
-                walk(s.orelse, conds + [canon_cond(s.test, defs, True)])
+                walk(s.orelse, conds + canon_conds(s.test, defs, True))
                 if result is not None:
                     return
                 if s.body and isinstance(s.body[-1], (ast.Continue, ast.Return, ast.Break, ast.Raise)) and not s.orelse:
-                    conds = conds + [canon_cond(s.test, defs, True)]
+                    conds = conds + canon_conds(s.test, defs, True)
             elif isinstance(s, (ast.For, ast.While)):
                 for n in ast.walk(s.iter if isinstance(s, ast.For) else s.test):
                     if n is target:
